@@ -49,7 +49,7 @@ func (c07Check) Describe() CheckInfo {
 		Rule: "exhaustive enumeration of command logs (every replicated command of engine/catalog.go in every argument template over the tier's domains, length 1 from the seeded universe and length 2 over the tiny domains) applied through the real leader path of two independent single-voter raft nodes that differ in random stream and apply time; plus every command x entry node on a real 3-node cluster. " +
 			"Oracles: equal datasets (all databases, values and deadlines) and equal acknowledged replies between the two nodes; equal datasets on all three nodes once their applied indices agree; a follower never changes its dataset by itself for a client write. Non-trivial = a log whose commands changed the dataset.",
 		Assumptions: []string{"raft elections, heartbeats and gossip run in real time and are not enumerated (schedules of the replication protocol are not owned by the explorer)",
-			"leadership transfer, node shutdown between batches and raft snapshot/restore are not exercised",
+			"leadership transfer and node shutdown between batches are not exercised; the raft snapshot round trip is driven through raft's user-triggered Snapshot/Restore, not through log compaction",
 			"a batch that does not converge within its polling budget is reported as not exhaustive, not as a violation"},
 	}
 }
@@ -231,6 +231,7 @@ func (c c07Check) Run(u Unit, w *Worker) UnitResult {
 	json.Unmarshal(u.Args, &a)
 	res := UnitResult{Stats: map[string]int64{}}
 	resetEnv(u.Seed)
+	verifrt.SetFS(verifrt.NewMemFS())
 	switch a.Facet {
 	case "determinism":
 		c.determinism(a, w, &res)
@@ -454,6 +455,49 @@ func (c c07Check) determinism(a c07Args, w *Worker, res *UnitResult) {
 				}
 			}
 		}
+	}
+	// raft snapshot round trip (first shard only): a dataset is snapshotted on A by raft itself (FSM.Snapshot + Persist)
+	// and restored on the emptied B through raft's Restore (FSM.Restore); B must then hold A's dataset.  First with
+	// string values only (two databases, a deadline), then with the seeded universe (every value kind).
+	roundTrip := func(caseName, sigName string, data []Action) {
+		if !w.Case(caseName) || !reset() {
+			return
+		}
+		c07Apply(A, data, 1)
+		err, pan, hang := A.in.Call(func() error { return A.in.db.VerifRaftSnapshotTo(B.in.db) })
+		res.Stats["raft_snapshot_round_trips"]++
+		switch {
+		case pan != "" || hang:
+			res.Findings = append(res.Findings, Finding{Prop: "C07", Kind: "raft-snapshot", Sig: "raft-snapshot|" + sigName + "|panic-or-hang",
+				Detail: caseName + ": " + firstLine(pan) + map[bool]string{true: " (hang)", false: ""}[hang]})
+		case err != nil:
+			res.Findings = append(res.Findings, Finding{Prop: "C07", Kind: "raft-snapshot", Sig: "raft-snapshot|" + sigName + "|error",
+				Detail: caseName + " failed: " + err.Error()})
+		default:
+			if pa, pb := A.alpha(), B.alpha(); alphaKey(pa) != alphaKey(pb) {
+				kind, diff := c07DiffKind(pa, pb)
+				// textual comparison first: a number that only changed its internal type (int -> float64 through
+				// JSON) is its own, milder signature
+				ta, tb := Alpha{}, Alpha{}
+				for db, m := range pa {
+					ta[db] = normText(m)
+				}
+				for db, m := range pb {
+					tb[db] = normText(m)
+				}
+				if alphaKey(ta) == alphaKey(tb) {
+					kind = "number-type"
+				}
+				res.Findings = append(res.Findings, Finding{Prop: "C07", Kind: "raft-snapshot", Sig: "raft-snapshot|" + sigName + "|restored-" + kind + "-differs",
+					Detail: caseName + ": the restored node holds another dataset: " + diff})
+			}
+		}
+	}
+	if a.Shard == 0 && a.Depth == 1 {
+		roundTrip("raft snapshot of string keys restored on another node", "strings", []Action{cmd("SET", "a", "1"), cmd("SET", "b", "text"), cmd("SET", "c", "1.5"),
+			cmd("SET", "v", "x", "EX", "1000"), cmd("SELECT", "1"), cmd("SET", "other", "db1"), cmd("SELECT", "0")})
+		roundTrip("raft snapshot of the seeded universe restored on another node", "universe",
+			append(append([]Action{}, seed...), cmd("SELECT", "1"), cmd("SET", "other", "db1"), cmd("SELECT", "0")))
 	}
 	for h := range hashes {
 		res.Hashes = append(res.Hashes, h)
